@@ -53,3 +53,240 @@ def brute_overlap(rows, a, b):
         return None
     i, j = hits[0], hits[-1]
     return i, j, spans[i][0], spans[j][1]
+
+
+# --------------------------------------------------------------------------
+# remap oracles (C01, C02, C07, C11)
+
+
+def all_frags(scaffolds):
+    for _name, rows in scaffolds:
+        for r in rows:
+            if r[0] == "F":
+                yield r
+
+
+def contig_table(input_scaffolds):
+    """contig name -> sorted list of (start, end) input intervals"""
+    tbl = {}
+    for r in all_frags(input_scaffolds):
+        tbl.setdefault(r[1], []).append((r[2], r[3]))
+    for v in tbl.values():
+        v.sort()
+    return tbl
+
+
+def partition_violation(input_scaffolds, output_scaffolds):
+    """
+    C01 oracle. Every base of every input contig in exactly one output fragment;
+    every output fragment a sub-interval of one input contig under its name.
+    Returns a message or None.
+    """
+    tbl = contig_table(input_scaffolds)
+    got = {}
+    for r in all_frags(output_scaffolds):
+        name, a, b = r[1], r[2], r[3]
+        ivs = tbl.get(name)
+        if ivs is None:
+            return f"output fragment {name}:{a}-{b} names no input contig (invented)"
+        home = [iv for iv in ivs if iv[0] <= a and b <= iv[1]]
+        if not home:
+            return f"output fragment {name}:{a}-{b} is not inside any input contig {ivs}"
+        got.setdefault((name, home[0]), []).append((a, b))
+    for name, ivs in tbl.items():
+        for iv in ivs:
+            parts = sorted(got.get((name, iv), []))
+            if not parts:
+                return f"input contig {name}:{iv[0]}-{iv[1]} is missing from all outputs (lost)"
+            if parts[0][0] != iv[0]:
+                return f"input contig {name}:{iv[0]}-{iv[1]}: first output piece starts at {parts[0][0]} (lost bases)"
+            for (a1, b1), (a2, b2) in zip(parts, parts[1:]):
+                if a2 <= b1:
+                    return f"input contig {name}:{iv[0]}-{iv[1]}: pieces {a1}-{b1} and {a2}-{b2} overlap (duplicated bases)"
+                if a2 != b1 + 1:
+                    return f"input contig {name}:{iv[0]}-{iv[1]}: hole between {b1} and {a2} (lost bases)"
+            if parts[-1][1] != iv[1]:
+                return f"input contig {name}:{iv[0]}-{iv[1]}: last output piece ends at {parts[-1][1]} (lost bases)"
+    return None
+
+
+def lead_end(r):
+    """The contig end a fragment row shows first in reading direction: (contig, coordinate, side)."""
+    return (r[1], r[2], "lo") if r[4] >= 0 else (r[1], r[3], "hi")
+
+
+def trail_end(r):
+    return (r[1], r[3], "hi") if r[4] >= 0 else (r[1], r[2], "lo")
+
+
+def adjacencies(rows):
+    """
+    Yields (frozenset({end_x, end_y}), x_index, y_index, rows_between) for each
+    pair of consecutive fragments of a scaffold.
+    """
+    prev = None
+    between = []
+    for i, r in enumerate(rows):
+        if r[0] == "F":
+            if prev is not None:
+                yield frozenset((trail_end(rows[prev]), lead_end(r))), prev, i, between
+            prev = i
+            between = []
+        else:
+            between.append(r)
+
+
+def adjacency_set(scaffolds):
+    out = set()
+    for _n, rows in scaffolds:
+        for adj, *_ in adjacencies(rows):
+            out.add(adj)
+    return out
+
+
+def neighbour_table(input_scaffolds):
+    """adjacency -> list of rows between the two contigs in the input"""
+    tbl = {}
+    for _n, rows in input_scaffolds:
+        for adj, _i, _j, between in adjacencies(rows):
+            tbl[adj] = [list(b) for b in between]
+    return tbl
+
+
+# --------------------------------------------------------------------------
+# C02: core runs
+
+
+def core_segments(rows, lo, hi, orient):
+    """
+    The bases lo..hi (scaffold coordinates) of an input scaffold as a list of
+    segments in reading order: ["F", contig, a, b, strand] sub-intervals and the
+    input gap rows strictly between two of them; reversed and strand-flipped if
+    orient == -1.
+    """
+    segs = []
+    for (s, e), r in zip(layout(rows), rows):
+        if e < lo or s > hi:
+            continue
+        if r[0] == "F":
+            cs, ce = max(s, lo), min(e, hi)
+            if r[4] >= 0:
+                a, b = r[2] + (cs - s), r[2] + (ce - s)
+            else:
+                a, b = r[3] - (ce - s), r[3] - (cs - s)
+            segs.append(["F", r[1], a, b, r[4]])
+        else:
+            segs.append(["G", r[1], r[2]])
+    while segs and segs[0][0] == "G":
+        segs.pop(0)
+    while segs and segs[-1][0] == "G":
+        segs.pop()
+    if orient < 0:
+        segs = [[x[0], x[1], x[2], x[3], -x[4]] if x[0] == "F" else x for x in reversed(segs)]
+    return segs
+
+
+def _seg_begin(x):
+    return x[2] if x[4] >= 0 else x[3]
+
+
+def _seg_end(x):
+    return x[3] if x[4] >= 0 else x[2]
+
+
+def match_run(segs, rows, at):
+    """Do output rows[at:at+len(segs)] realise the segment list? Returns None or a reason."""
+    if at + len(segs) > len(rows):
+        return "run would pass the end of the scaffold"
+    last = len(segs) - 1
+    for k, seg in enumerate(segs):
+        row = rows[at + k]
+        if seg[0] == "G":
+            if row[0] != "G" or row[1] != seg[1] or row[2] != seg[2]:
+                return f"row {at + k}: expected input gap {seg}, found {row}"
+            continue
+        if row[0] != "F" or row[1] != seg[1] or row[4] != seg[4]:
+            return f"row {at + k}: expected {seg[1]} strand {seg[4]}, found {row}"
+        if not (row[2] <= seg[2] and seg[3] <= row[3]):
+            return f"row {at + k}: {row} does not contain core segment {seg}"
+        if k > 0 and _seg_begin(row) != _seg_begin(seg):
+            return f"row {at + k}: {row} does not begin where segment {seg} begins (not contiguous)"
+        if k < last and _seg_end(row) != _seg_end(seg):
+            return f"row {at + k}: {row} does not end where segment {seg} ends (not contiguous)"
+    return None
+
+
+def find_run(segs, output_scaffolds):
+    """
+    All places (asm_key, scaffold_name, scaffold_index, row_index) where the
+    segment list is realised; plus the reasons of near misses (first segment matched).
+    output_scaffolds: list of (asm_key, name, rows)
+    """
+    first = segs[0]
+    found = []
+    reasons = []
+    for si, (key, name, rows) in enumerate(output_scaffolds):
+        for at, row in enumerate(rows):
+            if row[0] == "F" and row[1] == first[1] and row[2] <= first[3] and first[2] <= row[3]:
+                why = match_run(segs, rows, at)
+                if why is None:
+                    found.append((key, name, si, at))
+                else:
+                    reasons.append(f"{name}@{at}: {why}")
+    return found, reasons
+
+
+# --------------------------------------------------------------------------
+# plain readers (no regex shared with the code under test)
+
+
+def read_agp(text):
+    """AGP text -> (header_lines, [[object, rows]]), rows with tags list when present."""
+    scaffolds = []
+    header = []
+    cur = None
+    for line in text.split("\n"):
+        if line.strip() == "":
+            continue
+        if line.startswith("#"):
+            header.append(line)
+            continue
+        f = line.rstrip("\t\r ").split("\t")
+        if cur is None or cur[0] != f[0]:
+            cur = [f[0], []]
+            scaffolds.append(cur)
+        if f[4] in ("U", "N"):
+            cur[1].append(["G", int(f[5]), f[6]])
+        else:
+            row = ["F", f[5], int(f[6]), int(f[7]), {"+": 1, "-": -1, "?": 0}[f[8]]]
+            if len(f) > 9:
+                row.append(f[9:])
+            cur[1].append(row)
+    return header, scaffolds
+
+
+TPF_GAP = {"TYPE-2": "scaffold", "TYPE-3": "contig"}
+
+
+def read_tpf(text):
+    scaffolds = []
+    header = []
+    cur = None
+    for line in text.split("\n"):
+        if line.strip() == "":
+            continue
+        if line.startswith("#"):
+            header.append(line)
+            continue
+        f = line.split("\t")
+        if f[0] == "GAP":
+            gt = TPF_GAP.get(f[1], f[1].lower().replace("-", "_"))
+            cur[1].append(["G", int(f[2]), gt])
+            continue
+        if cur is None or cur[0] != f[2]:
+            cur = [f[2], []]
+            scaffolds.append(cur)
+        name, _, coords = f[1].rpartition(":")
+        a, _, b = coords.partition("-")
+        cur[1].append(["F", name, int(a), int(b), {"PLUS": 1, "MINUS": -1, "UNKNOWN": 0}[f[3]]])
+    return header, scaffolds
